@@ -93,6 +93,58 @@ extern EbMemoryMapEntry *memory_map_end_address;
         svt_dec_lib_malloc_count++;                                                   \
     } while (0)
 
+#ifdef SVT_AV1_VERIF
+/* verification hook (property C16): the two decoder allocation macros above with each primitive
+ * allocation replaced by `svt_verif_fail_here(__FILE__, __LINE__) ? <failure> : <primitive>` (see EbMalloc.h) */
+int svt_verif_fail_here(const char *file, int line);
+#ifndef _WIN32
+#undef EB_ALLIGN_MALLOC_DEC
+#define EB_ALLIGN_MALLOC_DEC(type, pointer, n_elements, pointer_class)                \
+    do {                                                                              \
+        if (svt_verif_fail_here(__FILE__, __LINE__) ? 1 : posix_memalign((void **)&(pointer), ALVALUE, n_elements) != 0)            \
+            return EB_ErrorInsufficientResources;                                     \
+        EbMemoryMapEntry *node = svt_verif_fail_here(__FILE__, __LINE__) ? NULL : malloc(sizeof(*node));                               \
+        if (node == NULL) {                                                           \
+            free(pointer);                                                            \
+            return EB_ErrorInsufficientResources;                                     \
+        }                                                                             \
+        node->ptr_type     = pointer_class;                                           \
+        node->ptr          = pointer;                                                 \
+        node->prev_entry   = svt_dec_memory_map;                                      \
+        svt_dec_memory_map = node;                                                    \
+        (*svt_dec_memory_map_index)++;                                                \
+        if (n_elements % 8 == 0)                                                      \
+            *svt_dec_total_lib_memory += ((n_elements) + sizeof(*node));              \
+        else                                                                          \
+            *svt_dec_total_lib_memory += (((n_elements) + (8 - ((n_elements) % 8))) + \
+                                          sizeof(*node));                             \
+        svt_dec_lib_malloc_count++;                                                   \
+    } while (0)
+#endif
+#undef EB_MALLOC_DEC
+#define EB_MALLOC_DEC(type, pointer, n_elements, pointer_class)                       \
+    do {                                                                              \
+        pointer = svt_verif_fail_here(__FILE__, __LINE__) ? NULL : malloc(n_elements);                                                 \
+        if (pointer == NULL)                                                          \
+            return EB_ErrorInsufficientResources;                                     \
+        EbMemoryMapEntry *node = svt_verif_fail_here(__FILE__, __LINE__) ? NULL : malloc(sizeof(EbMemoryMapEntry));                    \
+        if (node == NULL) {                                                           \
+            free(pointer);                                                            \
+            return EB_ErrorInsufficientResources;                                     \
+        }                                                                             \
+        node->ptr_type     = pointer_class;                                           \
+        node->ptr          = pointer;                                                 \
+        node->prev_entry   = svt_dec_memory_map;                                      \
+        svt_dec_memory_map = node;                                                    \
+        (*svt_dec_memory_map_index)++;                                                \
+        if (n_elements % 8 == 0)                                                      \
+            *svt_dec_total_lib_memory += ((n_elements) + sizeof(*node));              \
+        else                                                                          \
+            *svt_dec_total_lib_memory += (((n_elements) + (8 - ((n_elements) % 8))) + \
+                                          sizeof(*node));                             \
+        svt_dec_lib_malloc_count++;                                                   \
+    } while (0)
+#endif /* SVT_AV1_VERIF */
 EbErrorType dec_eb_recon_picture_buffer_desc_ctor(EbPtr *object_dbl_ptr, EbPtr object_init_data_ptr,
                                                   EbBool is_16bit_pipeline);
 
